@@ -59,6 +59,10 @@ CLAIMED = {
   "players follow a video Representation over runs of consecutive segments (vod: the whole track; live: the whole availability window, by number and by timeline, across loops of the source) with event schedules from the swarm (ping/scte35, start, interval, count incl. 0, duration, timescale 1..90000, emsg v0/v1, inband flag); duplicated requests, refresh overlap, interleaved clients and restarts are injected; history oracle over the run: the multiset of emsg ids equals the scheduled events inside the run (events within one tick of the coarser timescale of a run edge may go either way), each in the segment containing it and resolving to its instant; out-of-band manifests list the same schedule; every SCTE-35 payload seen in flight is decoded by an independent bit reader (CRC-32/MPEG-2, event id, PTS, break duration)",
   "sampling; the encode/parse identity over all SCTE-35 field values is a pure function and is not claimed; event density is bounded to >= 0.1 s intervals to keep requests cheap",
   TECH + "history oracle over fetched runs + independent SCTE-35 reader"),
+ "C05": ("exploration",
+  "the world is built through the management API with hostile stream titles, licence URLs, multi-period titles and period ids (only what the service accepts and persists); players request all 9 templates in every mode they support, single- and multi-period, plus patches, with hostile query values, unknown parameters and hostile Host headers, while the clock sits on values that stress derived lexical forms; every 200 response must parse with lxml, have the same element skeleton as the corresponding response of a twin run in which each hostile string is replaced by a benign placeholder (determinism aligns the two response sequences index by index), and satisfy structural rules written from ISO/IEC 23009-1 (required attributes per MPD@type, lexical validity and sign of xs:duration / xs:dateTime / unsignedInt attributes, id uniqueness per scope, no empty AdaptationSet, template identifiers)",
+  "vehicle property: sampled input space; streams offer clear and encrypted variants of each track (encrypted-only streams are C16/C17 territory)",
+  TECH + "twin-run skeleton comparison + structural rule set"),
 }
 
 PENDING_REASON = "check not built yet in this session (planned, see DESIGN.md build order); not claimed until its simulation exists"
